@@ -66,6 +66,27 @@ func checkLiteral(s string) (msg string, class string) {
 				return fmt.Sprintf("%s: literal %q evaluated to %s, it denotes %s", f, s, got.String(), val), "valid"
 			}
 		}
+		// ... and behind the other tokens an operand may follow, two of them per literal in turn: operators that
+		// hand their right operand on unchanged, written without spaces, and typeof
+		c12CtxCount++
+		for k := 0; k < 2; k++ {
+			ctx := c12MoreCtx[(c12CtxCount*2+k)%len(c12MoreCtx)]
+			f := strings.ReplaceAll(ctx, "_", s)
+			if strings.Contains(ctx, "typeof") {
+				out := obs.EvalText(f, nil)
+				if arr, ok := out.Val.([]interface{}); out.Panic != nil || out.Err != nil || !ok || len(arr) != 1 || arr[0] != "number" {
+					return fmt.Sprintf("%s: valid literal %q: %s, want [\"number\"]", f, s, out), "valid"
+				}
+				continue
+			}
+			elems, em := litElems(f)
+			if em != "" {
+				return fmt.Sprintf("%s: valid literal %q did not evaluate: %s", f, s, em), "valid"
+			}
+			if got := elems[len(elems)-1]; !sameValue(got, val) {
+				return fmt.Sprintf("%s: literal %q evaluated to %s, it denotes %s", f, s, got.String(), val), "valid"
+			}
+		}
 		// the literal as the whole formula (its value is handed back by reference): evaluates, and - through the
 		// repeat / re-read checks of obs.EvalText - keeps evaluating to the same float64
 		if top := obs.EvalText(s, nil); top.Panic != nil || top.Err != nil {
@@ -91,6 +112,10 @@ func checkLiteral(s string) (msg string, class string) {
 		return checkGrammar(s, ""), "other"
 	}
 }
+
+var c12MoreCtx = []string{"[typeof _]", "[null??_]", "[0||_]", "[true&&_]", "[typeof\t_]", "[!c?0:_]", "[$v=_]", "[(0,_)]", "[typeof(_)]"}
+
+var c12CtxCount int
 
 func c12Nontrivial(s string, class string) bool {
 	if class == "malformed" {
